@@ -29,7 +29,7 @@ CLAIMS = {
  "C10": ("Lean theorems: soundness and completeness of both branches of assert_max_spread in cross-multiplied integer form, correctness and success set of the decimals normalisation, guard only with max_spread, monotonicity in the limit (accepted at ms ⇒ accepted at every larger ms, any belief price). "
          "Correspondence: all 20×20 decimal pairs × both branches with values solved around the limit; guard vs other failure compared by enum variant; world family swap: every accepted swap is judged against the bound on its reported amounts with the pair's own decimals, every guard rejection against the quote taken just before. World-level theorems (C10W): a successful swap — direct or through the cw20 hook — passed assert_max_spread on its reported amounts with the pair's own decimals in offer/ask order, hence satisfies the bound; a guard rejection comes only from that call on the would-be amounts.",
          "§6 C10", "Lean 4 proof + differential correspondence"),
- "C12": ("Lean theorems: closed integer form of compute_offer_amount, never above the documented closed form, below it by at most the stated rounding, commission formula. "
+ "C12": ("Lean theorems: closed integer form of compute_offer_amount, never above the documented closed form, below it by at most the stated rounding, commission formula, monotonicity of the reverse quote in the ask. "
          "Correspondence: compute_offer_amount family around the feasibility frontier.", "§6 C12", "Lean 4 proof + differential correspondence"),
  "C02": ("Lean theorems over the world model: effect of a successful swap through both entry points (offered asset is a pair asset, is the asset delivered, in the declared amount; "
          "ask reserve falls by exactly the reported return, receiver credited exactly that; nothing else moves), rejection of hooks naming another asset or amount (defect D2, repaired), reported amounts = pricing function. "
